@@ -1234,11 +1234,30 @@ class Mesh:
     def remove_duplicate_nodes(self):
         p, t = self._remove_duplicate_nodes(self.doflocs,
                                             self.t)
-        return replace(
+        out = replace(
             self,
             doflocs=p,
             t=t,
+            _boundaries=None,
         )
+        if self._boundaries is not None:
+            # merging vertices renumbers the facets: find the named facets
+            # again through their renumbered vertices
+            newv = np.zeros(self.doflocs.shape[1], dtype=np.int32)
+            newv[self.t] = t
+            newf = {tuple(f): i
+                    for i, f in enumerate(np.sort(out.facets, axis=0).T)}
+            out = replace(
+                out,
+                _boundaries={
+                    name: np.unique([
+                        newf[tuple(f)]
+                        for f in np.sort(newv[self.facets[:, ixs]], axis=0).T
+                    ]).astype(np.int32)
+                    for name, ixs in self._boundaries.items()
+                },
+            )
+        return out
 
     def element_finder(self, mapping=None):
         """Return a function handle from location to element index.
